@@ -246,13 +246,18 @@ def main(argv: list[str] | None = None) -> int:
     # SymDB fidelity is checked, not assumed: differential validation against sqlite3 first
     uses_symdb = any("SymDB" in " ".join(ob["meta"].get("stubs", [])) for ob in obligations)
     validated_shapes: set[str] = set()
+    symdb_broken = False
     if uses_symdb:
         r = subprocess.run([PY, "-m", "vf.validate_symdb"], capture_output=True, text=True, env=child_env(), cwd=ROOT, timeout=1200)
         print(r.stdout.strip().splitlines()[-1] if r.stdout.strip() else "validate_symdb: no output")
         if r.returncode != 0:
             print(r.stdout[-3000:])
             print("HARNESS-ERROR validate_symdb: SymDB disagrees with sqlite3 (or could not run):", r.stderr[-1500:])
-            return HARNESS_ERROR
+            # fail closed for everything that runs over SymDB, but still run the obligations that use the real SQLite
+            symdb_broken = True
+            obligations = [ob for ob in obligations if "SymDB" not in " ".join(ob["meta"].get("stubs", []))]
+            if not obligations:
+                return HARNESS_ERROR
         try:
             validated_shapes = set(json.load(open(os.path.join(ROOT, "vf", "symdb_shapes.json"))))
         except Exception:
@@ -399,6 +404,8 @@ def main(argv: list[str] | None = None) -> int:
             print("HARNESS-ERROR %s: %s" % (res["fn"], res["detail"][:1500]))
         if rc == 0:
             rc = HARNESS_ERROR
+    if symdb_broken and rc == 0:
+        rc = HARNESS_ERROR  # the SymDB obligations could not be run at all
     print("[%s] tier=%s obligations=%d confirmed=%d not_exhausted=%d violations=%d harness_errors=%d paths=%d wall=%.0fs" % (
         pid, a.tier, len(results), discharged, len(unexhausted), len(violations), len(harness_errors), paths, time.time() - t0))
     return rc
